@@ -10,6 +10,7 @@ for finite state automaton processing.
 
 # flake8: noqa
 from pyab_experiment.sly import Lexer
+from pyab_experiment.sly.lex import LexError
 
 
 class ExperimentLexer(Lexer):
@@ -128,8 +129,13 @@ class ExperimentLexer(Lexer):
         self.lineno += t.value.count("\n")
 
     def error(self, t):
-        print("Illegal character '%s'" % t.value[0])
-        self.index += 1
+        # a character that belongs to no token makes the whole text invalid:
+        # skipping it would silently compile some other experiment
+        raise LexError(
+            "Illegal character '%s' at index %d" % (t.value[0], self.index),
+            t.value,
+            self.index,
+        )
 
 
 class BlockComment(Lexer):
